@@ -99,9 +99,9 @@ theorem json_reader_fuel_independent (s : List Char) (t : Json) (r : List Char) 
   have := (value_fuelFor rfc8259_consumes h).2
   simp [JsonText.parse, parseWith, this, he] at hn
 
-/-- a text read with little fuel (4 is enough for `[[1],2]`), hence with every fuel -/
-example : (value rfc8259 4 "[[1],2] x".toList).map (fun p => (chars p.1, p.2)) = some ("[[1],2]".toList, " x".toList) ∧
-    value rfc8259 3 "[[1],2] x".toList = none := by
+/-- a text read with little fuel (5 is enough for `[[1],2]`, 4 is not), hence with every larger fuel -/
+example : (value rfc8259 5 "[[1],2] x".toList).map (fun p => (chars p.1, p.2)) = some ("[[1],2]".toList, " x".toList) ∧
+    value rfc8259 4 "[[1],2] x".toList = none := by
   constructor <;> decide +kernel
 
 /-- JSON TEXT ROUND TRIP. For EVERY JSON tree `t` whose numbers are number tokens of RFC 8259 §6 (`good rfc8259.key t`: the
